@@ -161,7 +161,9 @@ def r20_6(ctx):
               ("thread.start", Outcomes(OK(None))), ("thread.run_coroutine_threadsafe", Outcomes(OK((Sym("protocol"), Sym("done"))))),
               ("_connect", lambda px_, t, a, k, fr: Obj(TypeRef("coroutine"), {"args": tuple(a)}, tag="_connect(...)"))]
     for use_thread in (True, False):
-        px = PX(repo, models=([("_connect", Outcomes(OK((Sym("protocol"), Sym("done")))))] if not use_thread else []) + models, inline=lambda g, aw: False)
+        # module-level helpers connect() is split into are part of it (the _connect coroutine itself is modelled)
+        px = PX(repo, models=([("_connect", Outcomes(OK((Sym("protocol"), Sym("done")))))] if not use_thread else []) + models,
+                inline=lambda g, aw: g.cls is None and g.mod == U and g.name != "_connect")
         for p in px.explore(c, lambda: (None, {"config": Sym("config"), "application": Sym("app"), "use_thread": use_thread})):
             ctx.paths += 1
             prox = [e for e in p.events if e.kind == "call" and e.what == "ThreadsafeProxy"]
